@@ -441,7 +441,7 @@ def _normalize_python_version_specifier(marker: MarkerExpression) -> BaseSpecifi
         # skip this case, so in the following code value must be a dotted version string
         return marker.specifier
     splitted = [p.strip() for p in value.split(".")]
-    if len(splitted) == 3 and splitted[2] == "0":
+    if len(splitted) == 3 and splitted[2] == "0" and op != "~=":
         # python_version "X.Y.0" (as re-rendered from "X.Y.*") is just "X.Y"
         splitted.pop()
     if len(splitted) > 2 or "*" in splitted:
